@@ -335,6 +335,10 @@ impl RNode {
 
 /// `tag:yaml.org,2002:!str` (parser's Display) -> `!!str` (source notation).
 pub fn norm_tag(t: &str) -> String {
+    if t == "!!" {
+        // the parser displays the non-specific tag `!` as `!!`
+        return "!".to_string();
+    }
     if let Some(rest) = t.strip_prefix("tag:yaml.org,2002:!") {
         format!("!!{rest}")
     } else {
